@@ -1421,7 +1421,8 @@ func (reg *VarTypeRegistry) Init(src *Pkgsrc) {
 		sitesMk := src.LoadMkExisting(filename)
 		if sitesMk != nil {
 			sitesMk.ForEach(func(mkline *MkLine) {
-				if mkline.IsVarassign() && hasPrefix(mkline.Varname(), "MASTER_SITE_") {
+				if mkline.IsVarassign() && hasPrefix(mkline.Varname(), "MASTER_SITE_") &&
+					!reg.IsDefinedExact(mkline.Varname()) {
 					reg.syslist(mkline.Varname(), BtFetchURL)
 				}
 			})
